@@ -50,6 +50,23 @@ def target_functions():
     F["echo"] = ("echo(uint256)", arg(0) + ["PUSH0", "MSTORE", ("push", 32), "PUSH0", "RETURN"], "view")
     F["hit"] = ("hit()", e2e.if_then(T + ["TIMESTAMP", "EQ"], sset([("push", 9)]), "h") + ["STOP"], "nonpayable")  # s = 9 iff now == t
     F["tget"] = ("tget()", ["PUSH0", "TLOAD", "PUSH0", "MSTORE", ("push", 32), "PUSH0", "RETURN"], "view")  # the account's own transient slot 0
+    # merging: two post-states that store the same term and differ only in a constraint reaching the stored value through another
+    # constraint: require(x == y); if (y < 10) s = x; else s = x;
+    x8, y8 = arg(0) + [("push", 0xFF), "AND"], arg(1) + [("push", 0xFF), "AND"]
+    F["eqset"] = ("eqset(uint8,uint8)", e2e.if_then(y8 + x8 + ["EQ", "ISZERO"], e2e.revert0(), "ne") +
+                  [("push", 10)] + y8 + ["LT", ("ref", "lo"), "JUMPI"] + sset(x8) + ["STOP", ("label", "lo")] + sset(x8) + ["STOP"], "nonpayable")
+    # time gates: arm(): s 0 -> 1; late(): needs block.timestamp > 1 and s == 1, then s = 2; anyt(): s 1 -> 2 without a gate;
+    # early(): needs block.timestamp <= 1 and s == 2, then t = 9.  [arm, anyt, early] at times (1,1,1) reaches t = 9
+    def step_if(cur, nxt, gate=None):
+        body = e2e.if_then(S + [("push", cur), "EQ", "ISZERO"], e2e.revert0(), "c")
+        if gate is not None:
+            body = e2e.if_then(gate, e2e.revert0(), "g") + body
+        return body
+
+    F["arm"] = ("arm()", step_if(0, 1) + sset([("push", 1)]) + ["STOP"], "nonpayable")
+    F["late"] = ("late()", step_if(1, 2, [("push", 1), "TIMESTAMP", "GT", "ISZERO"]) + sset([("push", 2)]) + ["STOP"], "nonpayable")
+    F["anyt"] = ("anyt()", step_if(1, 2) + sset([("push", 2)]) + ["STOP"], "nonpayable")
+    F["early"] = ("early()", step_if(2, 2, [("push", 1), "TIMESTAMP", "GT"]) + [("push", 9), ("push", 1), "SSTORE", "STOP"], "nonpayable")
     F["get"] = ("get()", S + ["PUSH0", "MSTORE"] + T + [("push", 32), "MSTORE", ("push", 64), "PUSH0", "RETURN"], "view")
     return F
 
@@ -178,7 +195,9 @@ class Project:
 # ---------------------------------------------------------------------------
 
 ARG_DOMAIN = {"set(uint8)": [0, 1, 2, 3, 4, 5, 7, 9, 12, 255, 256 + 3], "rng(uint8)": [0, 2, 3, 4, 5, 7, 9, 10, 11, 12, 255],
-              "setb(uint8)": [0, 1, 2, 3, 4, 5, 7, 9, 12, 255], "setw(uint256)": [0, 1, 5, 7, 2**255]}
+              "setb(uint8)": [0, 1, 2, 3, 4, 5, 7, 9, 12, 255], "setw(uint256)": [0, 1, 5, 7, 2**255],
+              "eqset(uint8,uint8)": [(5, 5), (12, 12), (5, 6), (0, 0)]}
+TIME_FUNCS = ("tick", "hit", "late", "early")
 VALUE_DOMAIN = [0, 1]
 DEFAULT_SENDER = 0xBEEF
 
@@ -251,10 +270,10 @@ def reference_bfs(project, max_depth, panic_codes=(1,), first_call_at_setup_time
                 for a in ARG_DOMAIN.get(sig, [None]):
                     for snd in senders:
                         for val in (VALUE_DOMAIN if f == "pay" else [0]):
-                            for dt in ((0, 1) if (any("tick" in t for t in desc["targets"]) and not (first_call_at_setup_time and depth == 1)) else (0,)):
+                            for dt in ((0, 1) if (any(tf in t for t in desc["targets"] for tf in TIME_FUNCS) and not (first_call_at_setup_time and depth == 1)) else (0,)):
                                 w2 = e2e.clone_world(w)
                                 w2.block["timestamp"] = w.block["timestamp"] + dt
-                                r = e2e.ref_call(w2, sig, [a] if a is not None else [], panic_codes=panic_codes, value=val, caller=snd, origin=snd, target=addrs[ti])
+                                r = e2e.ref_call(w2, sig, (list(a) if isinstance(a, tuple) else [a]) if a is not None else [], panic_codes=panic_codes, value=val, caller=snd, origin=snd, target=addrs[ti])
                                 if r.kind == "fail":
                                     if probe is None:
                                         probe = depth
